@@ -1,4 +1,299 @@
+/* eng_hheap.c - C02: cmi_hashheap against a map + order model, with structural checks.
+ *
+ * Plan lines:
+ *   INIT exp cmp          exp 1..6, cmp 0 default, 1 waiting-list, 2 pool-holder, 3 object-priority
+ *   ENQ ksel d i a b dd   ksel 0: automatic key; ksel>0: caller key palette[ksel]; skipped if live
+ *   DEQ | PEEK | CLEAR | RESET
+ *   REM sel | ISENQ sel | ITEM sel | KEYS sel | REPRIO sel d i      sel indexes keys ever used (mod)
+ *   PFIND a b c d | PCOUNT a b c d | PCANCEL a b c d                 -1 = wildcard, c: unique id or -1
+ */
 #include "core.h"
-static void g(plan *p, uint64_t seed, const char *cfg) { (void)p; (void)seed; (void)cfg; }
-static void r(const plan *p) { (void)p; }
-const engine eng_hheap = { .name = "hheap", .props = "", .gen = g, .run = r, .rule = "stub" };
+#include <stdlib.h>
+#include <string.h>
+#include "cmi_hashheap.h"
+#include "cmb_resourceguard.h"
+#include "cmb_resourcepool.h"
+#include "cmb_priorityqueue.h"
+#include "cmb_logger.h"
+
+#define MAXLIVE 1100
+#define MAXKEYS 6000
+#define NPAL 16
+
+typedef struct { uint64_t key; void *pay[4]; double d; int64_t i; } ment;
+static ment live[MAXLIVE];
+static int nlive;
+static uint64_t keys_used[MAXKEYS];
+static int nkeys;
+static uint64_t pal[NPAL];
+static struct cmi_hashheap *hp;
+static cmi_heap_compare_func *cmp;
+static int cmpkind;
+static uint64_t uniq;
+
+static const uint64_t PHI = UINT64_C(11400714819323198485);
+
+static void *pv(int64_t code) { return code < 0 ? CMI_ANY_ITEM : (void *)(uintptr_t)(0x2000 + 8 * code); }
+
+static int find_live(uint64_t key) { for (int i = 0; i < nlive; i++) if (live[i].key == key) return i; return -1; }
+static void note_key(uint64_t key) { if (nkeys < MAXKEYS) keys_used[nkeys++] = key; }
+static struct cmi_heap_tag tag_of(const ment *m)
+{
+    struct cmi_heap_tag t; memset(&t, 0, sizeof t);
+    t.key = m->key; t.dsortkey = m->d; t.isortkey = m->i;
+    for (int k = 0; k < 4; k++) t.item[k] = m->pay[k];
+    return t;
+}
+static bool before(const ment *a, const ment *b)
+{
+    const struct cmi_heap_tag ta = tag_of(a), tb = tag_of(b);
+    return (*cmp)(&ta, &tb);
+}
+/* documented default order, judged independently of the library's function */
+static bool before_spec(const ment *a, const ment *b) { return a->d < b->d; }
+
+static void structural(const char *where)
+{
+    if (hp->heap == NULL) { if (nlive) viol("C02", "struct-null", "%s: heap NULL with %d live", where, nlive); return; }
+    if (hp->heap_count != (uint64_t)nlive) {
+        viol("C02", "count", "%s: count %" PRIu64 " model %d", where, hp->heap_count, nlive);
+        return;
+    }
+    if (hp->heap_size != (UINT64_C(1) << hp->heap_exp_cur) || hp->hash_size != 2 * hp->heap_size || hp->heap_count > hp->heap_size)
+        viol("C02", "struct-size", "%s: size fields inconsistent (exp %u heap %" PRIu64 " hash %" PRIu64 " count %" PRIu64 ")",
+             where, hp->heap_exp_cur, hp->heap_size, hp->hash_size, hp->heap_count);
+    for (uint64_t i = 1; i <= hp->heap_count; i++) {
+        const struct cmi_heap_tag *t = &hp->heap[i];
+        if (i >= 2 && (*cmp)(t, &hp->heap[i / 2])) {
+            viol("C02", "struct-heap-order", "%s: child %" PRIu64 " (key %" PRIu64 ") goes before its parent", where, i, t->key);
+            break;
+        }
+        if (t->hash_index >= hp->hash_size || hp->hash_map[t->hash_index].key != t->key
+            || hp->hash_map[t->hash_index].heap_index != i) {
+            viol("C02", "struct-hash-backpointer", "%s: heap[%" PRIu64 "] key %" PRIu64 " hash back-pointer wrong", where, i, t->key);
+            break;
+        }
+        const int m = find_live(t->key);
+        if (m < 0) { viol("C02", "struct-unknown-key", "%s: heap holds key %" PRIu64 " the model does not", where, t->key); break; }
+        if (memcmp(t->item, live[m].pay, sizeof t->item) != 0 || t->dsortkey != live[m].d || t->isortkey != live[m].i) {
+            viol("C02", "payload-detached", "%s: key %" PRIu64 " carries another entry's payload or sort keys", where, t->key);
+            break;
+        }
+    }
+    uint64_t lv = 0;
+    for (uint64_t h = 0; h < hp->hash_size; h++) if (hp->hash_map[h].heap_index != 0) lv++;
+    if (lv != hp->heap_count) viol("C02", "struct-hash-live", "%s: %" PRIu64 " live hash entries for %" PRIu64 " items", where, lv, hp->heap_count);
+    for (int m = 0; m < nlive; m++) {
+        const uint64_t idx = cmi_hash_find_index(hp, live[m].key);
+        if (idx == 0 || idx > hp->heap_count || hp->heap[idx].key != live[m].key) {
+            viol("C02", "lookup-live", "%s: live key %" PRIu64 " not found by lookup", where, live[m].key);
+            break;
+        }
+    }
+}
+
+static void check_min(const char *what, int got)
+{
+    for (int j = 0; j < nlive; j++) {
+        if (j == got) continue;
+        if (before(&live[j], &live[got])) {
+            viol("C02", "not-minimum", "%s returned key %" PRIu64 " (d=%g i=%" PRId64 ") although key %" PRIu64 " (d=%g i=%" PRId64 ") goes before it",
+                 what, live[got].key, live[got].d, live[got].i, live[j].key, live[j].d, live[j].i);
+            return;
+        }
+        if (cmpkind == 0 && before_spec(&live[j], &live[got])) {
+            viol("C02", "not-minimum-default", "%s: default order should be increasing dsortkey", what);
+            return;
+        }
+    }
+}
+
+static bool pmatch(const ment *m, int64_t a, int64_t b, int64_t c, int64_t d)
+{
+    return (a < 0 || m->pay[0] == pv(a)) && (b < 0 || m->pay[1] == pv(b)) && (c < 0 || m->pay[2] == pv(c))
+           && (d < 0 || m->pay[3] == pv(d));
+}
+
+static void hh_run(const plan *p)
+{
+    cmb_logger_flags_off(CMB_LOGGER_INFO | CMB_LOGGER_WARNING);
+    nlive = 0; nkeys = 0; uniq = 100;
+    int exp0 = 3; cmpkind = 0;
+    for (int i = 0; i < p->n; i++) if (pis(&p->l[i], "INIT")) { exp0 = (int)(1 + ((uint64_t)pa(&p->l[i], 0)) % 6); cmpkind = (int)(((uint64_t)pa(&p->l[i], 1)) % 4); break; }
+    /* comparators are taken from the public heap_compare field of freshly initialised objects */
+    struct cmb_resourcepool *pool = NULL; struct cmb_priorityqueue *pq = NULL;
+    cmi_heap_compare_func *c = NULL;
+    if (cmpkind == 1 || cmpkind == 2) {
+        pool = cmb_resourcepool_create(); cmb_resourcepool_initialize(pool, "p", 4);
+        c = (cmpkind == 1) ? pool->guard.priority_queue.heap_compare : pool->holders.heap_compare;
+    } else if (cmpkind == 3) {
+        pq = cmb_priorityqueue_create(); cmb_priorityqueue_initialize(pq, "q", 4);
+        c = pq->queue.heap_compare;
+    }
+    hp = cmi_hashheap_create();
+    cmi_hashheap_initialize(hp, (uint16_t)exp0, c);
+    cmp = hp->heap_compare;
+    /* caller keys >= 2^40 that collide in the Fibonacci hash for every exponent <= 8, in two groups */
+    {
+        int n = 0; uint64_t k = (UINT64_C(1) << 40) + 12345;
+        const uint64_t t0 = ((k * PHI) >> 55);
+        while (n < NPAL / 2) { if (((k * PHI) >> 55) == t0) pal[n++] = k; k += 8; }
+        const uint64_t t1 = t0 ^ 1;   /* neighbouring slot: probe chains overlap */
+        while (n < NPAL) { if (((k * PHI) >> 55) == t1) pal[n++] = k; k += 8; }
+    }
+    bool grew = false, collided = false, reinserted = false;
+    uint64_t steps = 0;
+    for (int li = 0; li < p->n; li++) {
+        const pline *l = &p->l[li];
+        if (pis(l, "INIT")) continue;
+        steps++;
+        const uint64_t sel = (uint64_t)pa(l, 0);
+        if (pis(l, "ENQ")) {
+            if (nlive >= MAXLIVE - 1) continue;
+            uint64_t key = 0;
+            if (sel > 0) { key = pal[sel % NPAL]; if (find_live(key) >= 0) continue; }
+            ment m; memset(&m, 0, sizeof m);
+            m.d = (double)(pa(l, 1) % 5) / 2.0; m.i = prio_of(pa(l, 2));
+            m.pay[0] = pv(pa(l, 3) < 0 ? 0 : pa(l, 3) % 3); m.pay[1] = pv(pa(l, 4) < 0 ? 0 : pa(l, 4) % 3);
+            m.pay[2] = pv((int64_t)(uniq++)); m.pay[3] = pv(pa(l, 5) < 0 ? 0 : pa(l, 5) % 2);
+            if (cmpkind == 2) m.d = 0.0;
+            const uint16_t e0 = hp->heap_exp_cur;
+            const uint64_t r = cmi_hashheap_enqueue(hp, m.pay[0], m.pay[1], m.pay[2], m.pay[3], key, m.d, m.i);
+            if (hp->heap_exp_cur != e0) { grew = true; PROBE("hh.grow"); }
+            if (key != 0 && r != key) viol("C02", "enqueue-key", "enqueue with caller key %" PRIu64 " returned %" PRIu64, key, r);
+            if (r == 0) { viol("C02", "enqueue-zero", "enqueue returned key 0"); continue; }
+            if (find_live(r) >= 0) { viol("C02", "enqueue-dup", "enqueue returned key %" PRIu64 " which is live", r); continue; }
+            if (key != 0) { for (int k = 0; k < nkeys; k++) if (keys_used[k] == key) { reinserted = true; PROBE("hh.reinsert_after_removal"); break; }
+                            for (int k = 0; k < nlive; k++) if (live[k].key >= (UINT64_C(1) << 40)) { collided = true; PROBE("hh.colliding_keys_live"); break; } }
+            m.key = r; live[nlive++] = m; note_key(r);
+            TR3("enq", r, dbits(m.d), m.i);
+        } else if (pis(l, "DEQ") || pis(l, "PEEK")) {
+            const bool deq = pis(l, "DEQ");
+            void **it = deq ? cmi_hashheap_dequeue(hp) : cmi_hashheap_peek_item(hp);
+            if (nlive == 0) { if (it != NULL) viol("C02", "empty-nonnull", "%s on empty heap returned non-NULL", l->op); continue; }
+            if (it == NULL) { viol("C02", "nonempty-null", "%s returned NULL with %d live", l->op, nlive); continue; }
+            int got = -1;
+            for (int k = 0; k < nlive; k++) if (live[k].pay[2] == it[2]) got = k;
+            if (got < 0 || memcmp(it, live[got].pay, 4 * sizeof(void *)) != 0) { viol("C02", "payload-detached", "%s returned a payload no live entry has", l->op); continue; }
+            check_min(l->op, got);
+            if (!deq) {
+                if (cmi_hashheap_peek_dkey(hp) != live[got].d || cmi_hashheap_peek_ikey(hp) != live[got].i)
+                    viol("C02", "peek-keys", "peek_dkey/ikey disagree with the peeked item");
+            }
+            TR2(deq ? "deq" : "peek", live[got].key, nlive);
+            if (deq) live[got] = live[--nlive];
+        } else if (pis(l, "CLEAR")) {
+            cmi_hashheap_clear(hp); nlive = 0; TR0("clear");
+        } else if (pis(l, "RESET")) {
+            cmi_hashheap_reset(hp); nlive = 0; TR0("reset");
+            if (hp->heap_exp_cur != exp0) viol("C02", "reset-size", "reset did not return to the initial size");
+        } else if (pis(l, "PFIND") || pis(l, "PCOUNT") || pis(l, "PCANCEL")) {
+            const int64_t a = pa(l, 0) < 0 ? -1 : pa(l, 0) % 3, b = pa(l, 1) < 0 ? -1 : pa(l, 1) % 3,
+                          cc = pa(l, 2) < 0 ? -1 : 100 + pa(l, 2) % (int64_t)(uniq - 99), d = pa(l, 3) < 0 ? -1 : pa(l, 3) % 2;
+            int m = 0; for (int k = 0; k < nlive; k++) m += pmatch(&live[k], a, b, cc, d);
+            if (pis(l, "PFIND")) {
+                const uint64_t r = cmi_hashheap_pattern_find(hp, pv(a), pv(b), pv(cc), pv(d));
+                const int g = r ? find_live(r) : -1;
+                if ((m == 0) != (r == 0) || (r != 0 && (g < 0 || !pmatch(&live[g], a, b, cc, d))))
+                    viol("C02", "pattern-find", "pattern_find returned %" PRIu64 " with %d matches", r, m);
+            } else if (pis(l, "PCOUNT")) {
+                const uint64_t r = cmi_hashheap_pattern_count(hp, pv(a), pv(b), pv(cc), pv(d));
+                if (r != (uint64_t)m) viol("C02", "pattern-count", "pattern_count %" PRIu64 " model %d", r, m);
+            } else {
+                const uint64_t r = cmi_hashheap_pattern_cancel(hp, pv(a), pv(b), pv(cc), pv(d));
+                if (r != (uint64_t)m) viol("C02", "pattern-cancel", "pattern_cancel %" PRIu64 " model %d", r, m);
+                for (int k = 0; k < nlive; ) { if (pmatch(&live[k], a, b, cc, d)) live[k] = live[--nlive]; else k++; }
+            }
+            TR2(l->op, m, nlive);
+        } else if (nkeys > 0) {
+            const uint64_t key = keys_used[sel % (uint64_t)nkeys];
+            const int g = find_live(key);
+            if (pis(l, "REM")) {
+                const bool r = cmi_hashheap_remove(hp, key);
+                if (r != (g >= 0)) viol("C02", "remove-retval", "remove(%" PRIu64 ") returned %d, live=%d", key, r, g >= 0);
+                if (g >= 0) live[g] = live[--nlive];
+                TR2("rem", key, r);
+            } else if (pis(l, "ISENQ")) {
+                const bool r = cmi_hashheap_is_enqueued(hp, key);
+                if (r != (g >= 0)) viol("C02", "is-enqueued", "is_enqueued(%" PRIu64 ")=%d live=%d", key, r, g >= 0);
+            } else if (pis(l, "ITEM") && g >= 0) {
+                void **it = cmi_hashheap_item(hp, key);
+                if (it == NULL || memcmp(it, live[g].pay, 4 * sizeof(void *)) != 0)
+                    viol("C02", "payload-detached", "item(%" PRIu64 ") is not the payload enqueued with that key", key);
+            } else if (pis(l, "KEYS") && g >= 0) {
+                if (cmi_hashheap_dkey(hp, key) != live[g].d || cmi_hashheap_ikey(hp, key) != live[g].i)
+                    viol("C02", "sortkeys", "dkey/ikey(%" PRIu64 ") differ from the model", key);
+            } else if (pis(l, "REPRIO") && g >= 0) {
+                live[g].d = (cmpkind == 2) ? 0.0 : (double)(pa(l, 1) % 5) / 2.0; live[g].i = prio_of(pa(l, 2));
+                cmi_hashheap_reprioritize(hp, key, live[g].d, live[g].i);
+                TR3("reprio", key, dbits(live[g].d), live[g].i);
+            }
+        }
+        if (cmi_hashheap_count(hp) != (uint64_t)nlive || cmi_hashheap_is_empty(hp) != (nlive == 0))
+            viol("C02", "count", "after %s: count %" PRIu64 " / is_empty %d, model %d", l->op, cmi_hashheap_count(hp), cmi_hashheap_is_empty(hp), nlive);
+        structural(l->op);
+        if (g_nviol) break;
+    }
+    /* drain: everything comes out, in a non-decreasing order under the comparator */
+    if (!g_nviol) {
+        while (nlive > 0) {
+            void **it = cmi_hashheap_dequeue(hp);
+            if (!it) { viol("C02", "nonempty-null", "drain: dequeue returned NULL with %d live", nlive); break; }
+            int got = -1;
+            for (int k = 0; k < nlive; k++) if (live[k].pay[2] == it[2]) got = k;
+            if (got < 0) { viol("C02", "payload-detached", "drain: unknown payload"); break; }
+            check_min("drain", got);
+            live[got] = live[--nlive];
+            if (g_nviol) break;
+        }
+        if (!g_nviol && cmi_hashheap_dequeue(hp) != NULL) viol("C02", "empty-nonnull", "drain: heap not empty at the end");
+    }
+    g_stats.events = steps;
+    g_stats.nontrivial = grew || collided || reinserted;
+    cmi_hashheap_destroy(hp);
+    if (pool) cmb_resourcepool_destroy(pool);
+    if (pq) cmb_priorityqueue_destroy(pq);
+}
+
+static void hh_gen(plan *p, uint64_t seed, const char *cfg)
+{
+    vrng r; vrng_seed(&r, seed);
+    int cmpk = (int)vrng_below(&r, 4);
+    const char *c = strstr(cfg, "cmp=");
+    if (c) cmpk = atoi(c + 4);
+    plan_add(p, "INIT", 2, (int64_t)vrng_below(&r, 5), (int64_t)cmpk);
+    const int n = 10 + (int)vrng_below(&r, vrng_chance(&r, 1, 8) ? 590 : 120);
+    const int keymode = (int)vrng_below(&r, 3);     /* 0 auto only, 1 caller only, 2 mixed */
+    const int pmode = (int)vrng_below(&r, 3);
+    const unsigned enq_w = 30 + (unsigned)vrng_below(&r, 40);
+    int used = 1;
+    for (int i = 0; i < n; i++) {
+        const unsigned k = (unsigned)vrng_below(&r, 100 + enq_w);
+        const int64_t sel = (int64_t)vrng_below(&r, (uint64_t)used + 1);
+        const int64_t pr = pmode == 0 ? 0 : pmode == 1 ? vrng_range(&r, -1, 2)
+                          : (int64_t[]){ 0, 1, -1, 1000001, -1000001, 1000002 }[vrng_below(&r, 6)];
+        if (k < enq_w + 20) {
+            int64_t ks = 0;
+            if (keymode == 1 || (keymode == 2 && vrng_chance(&r, 1, 2))) ks = 1 + (int64_t)vrng_below(&r, NPAL);
+            plan_add(p, "ENQ", 6, ks, (int64_t)vrng_below(&r, 5), pr, (int64_t)vrng_below(&r, 3), (int64_t)vrng_below(&r, 3), (int64_t)vrng_below(&r, 2));
+            used++;
+        }
+        else if (k < enq_w + 38) plan_add(p, "DEQ", 0);
+        else if (k < enq_w + 44) plan_add(p, "PEEK", 0);
+        else if (k < enq_w + 58) plan_add(p, "REM", 1, sel);
+        else if (k < enq_w + 72) plan_add(p, "REPRIO", 3, sel, (int64_t)vrng_below(&r, 5), pr);
+        else if (k < enq_w + 78) plan_add(p, "ISENQ", 1, sel);
+        else if (k < enq_w + 83) plan_add(p, "ITEM", 1, sel);
+        else if (k < enq_w + 87) plan_add(p, "KEYS", 1, sel);
+        else if (k < enq_w + 91) plan_add(p, "PFIND", 4, vrng_range(&r, -1, 2), vrng_range(&r, -1, 2), vrng_chance(&r, 3, 4) ? (int64_t)-1 : sel, vrng_range(&r, -1, 1));
+        else if (k < enq_w + 95) plan_add(p, "PCOUNT", 4, vrng_range(&r, -1, 2), vrng_range(&r, -1, 2), vrng_chance(&r, 3, 4) ? (int64_t)-1 : sel, vrng_range(&r, -1, 1));
+        else if (k < enq_w + 98) plan_add(p, "PCANCEL", 4, vrng_range(&r, -1, 2), vrng_range(&r, 0, 2), vrng_chance(&r, 3, 4) ? (int64_t)-1 : sel, vrng_range(&r, -1, 1));
+        else if (k < enq_w + 99) plan_add(p, "CLEAR", 0);
+        else plan_add(p, "RESET", 0);
+    }
+}
+
+const engine eng_hheap = {
+    .name = "hheap", .props = "C02", .gen = hh_gen, .run = hh_run,
+    .rule = "histories that crossed a capacity doubling, had colliding caller keys live together, or re-inserted a removed key",
+};
